@@ -1,11 +1,23 @@
 (* C10 — BGP announcement eligibility follows node state and traffic policy.
-   Statements only; proofs in Proofs/BgpAdsElig.v.  [bgp_decide me v] is the
-   transcription of bgpController.ShouldAnnounce on node [me] (RAnnounce = the
-   empty string); ready_all / ready_on / ready_here / adv_selects / single_homed
-   are the statement's vocabulary, defined in Model/BgpAds.v independently of
-   the transcription of hasHealthyEndpoint. *)
+   Statements only; proofs in Proofs/BgpAdsElig.v and Proofs/SpeakerP.v.
+
+   PARTIAL.  The property's literal rule is [c10_literal]; it is REFUTED for the Local policy
+   (C10_bgp_should_announce_literal_refuted, F18), PROVED when, for Local, no endpoint address appears
+   on two different nodes (C10_bgp_should_announce_partial), and its "if" direction holds always
+   (C10_literal_implies_announce).  C10_bgp_should_announce_iff characterises what the CODE decides
+   ([c10_code]: its Local clause was written from the code) — it is not the property.
+   The theorems lifted to histories (`..._partial` below) carry the hypotheses esvc_ok (no repeated
+   address in a Service) and no F25 staleness (see Properties/C09.v); "quiescent point" = after every
+   event together with the full re-sync it requests.
+   SCOPE.  NetworkUnavailable and the exclude label are one boolean each of nodes[myNode] (nil node: none);
+   condition status values, label values and the Terminating condition are exercised by the harness
+   only.  Not expressible: handler / session-manager errors, node deletion of THIS node, interface changes.
+
+   [bgp_decide me v] is the transcription of bgpController.ShouldAnnounce on node [me] (RAnnounce = the
+   empty string); ready_all / ready_on / ready_here / adv_selects / single_homed are the statement's
+   vocabulary, defined in Model/BgpAds.v independently of the transcription of hasHealthyEndpoint. *)
 From Coq Require Import List NArith.
-From Verif Require Import Model.BgpAds Model.Speaker Proofs.BgpAdsElig Proofs.SpeakerP.
+From Verif Require Import Model.BgpAds Model.Speaker Proofs.BgpAdsElig Proofs.SpeakerP Proofs.SpeakerRefuted.
 Local Open Scope N_scope.
 
 (* hasHealthyEndpoint = "some address whose every (selected) carrier can serve" *)
@@ -15,7 +27,7 @@ Theorem C10_has_healthy_endpoint_spec : forall filt eps,
             forall e, In e (concat eps) -> filt (be_node e) = false -> In a (be_addrs e) -> bcan_serve e = true.
 Proof. exact has_healthy_spec. Qed.
 
-(* what the code decides, for every layout, node state, flag and policy *)
+(* what the CODE decides (c10_code), for every layout, node state, flag and policy *)
 Theorem C10_bgp_should_announce_iff : forall me v,
   bgp_decide me v = RAnnounce <->
   adv_selects me v /\ node_unavail v = false /\ (bv_ignore v = true \/ node_excl v = false) /\
@@ -33,9 +45,9 @@ Theorem C10_decision_depends_on_unrelated_endpoint :
   bgp_decide 0 f18_view = RAnnounce /\ bgp_decide 0 f18_view' = RNoEndpoints.
 Proof. exact f18_depends_on_unrelated. Qed.
 
-(* the statement holds when no endpoint address appears on two different nodes *)
+(* the statement holds when, for the Local policy, no endpoint address appears on two different nodes *)
 Theorem C10_bgp_should_announce_partial : forall me v,
-  single_homed v ->
+  (bv_local v = true -> single_homed v) ->
   (bgp_decide me v = RAnnounce <->
    adv_selects me v /\ node_unavail v = false /\ (bv_ignore v = true \/ node_excl v = false) /\
    (if bv_local v then exists a, ready_on me v a else exists a, ready_all v a)).
@@ -52,7 +64,7 @@ Proof. exact bgp_reason_not_owner. Qed.
    after any event list followed by the re-syncs it requests (no F25 staleness; F9 does not matter
    for BGP), the Services with BGP advertisements on this node are exactly those whose address pool is
    configured and for which the eligibility rule above holds on the CURRENT node state ... *)
-Theorem C10_announced_over_bgp_iff : forall ev spk h name,
+Theorem C10_announced_over_bgp_iff_partial : forall ev spk h name,
   forallb esvc_ok h = true -> stale_after ev ([], sinit spk) false h = false ->
   let K := fst (srun ev spk h) in let st := snd (srun ev spk h) in
   bs_ads (s_bgp st) name <> None <->
@@ -63,7 +75,7 @@ Theorem C10_announced_over_bgp_iff : forall ev spk h name,
 Proof. exact announced_over_bgp_iff. Qed.
 
 (* ... and every live session carries exactly the routes those Services produce for its peer *)
-Theorem C10_session_routes_iff : forall ev spk h q l,
+Theorem C10_session_routes_iff_partial : forall ev spk h q l,
   forallb esvc_ok h = true -> stale_after ev ([], sinit spk) false h = false ->
   let K := fst (srun ev spk h) in let st := snd (srun ev spk h) in
   In q (bs_peers (s_bgp st)) -> ps_sess q = Some l ->
@@ -87,3 +99,15 @@ Example C10_nonvacuous_conflict :
                   bv_eps := [[ {| be_ready := Some true; be_serving := None; be_node := Some 0; be_addrs := [1] |} ];
                              [ {| be_ready := Some false; be_serving := None; be_node := Some 0; be_addrs := [1] |} ]] |} = RNoEndpoints.
 Proof. vm_compute. reflexivity. Qed.
+
+(* non-vacuity of the lifted theorems: a history satisfying their hypotheses in which a Service has BGP
+   advertisements and a route on the session of a peer; the node becoming network-unavailable removes both *)
+Example C10_nonvacuous_history :
+  let ws := srun env_id (Some [0]) bgp_history in
+  forallb esvc_ok bgp_history = true /\
+  stale_after env_id ([], sinit (Some [0])) false bgp_history = false /\
+  bs_ads (s_bgp (snd ws)) 0 <> None /\
+  option_map (@length adv) (sess_of (s_bgp (snd ws)) 1) = Some 1%nat /\
+  let ws' := srun env_id (Some [0]) (bgp_history ++ [ENode (w_lab [(7, 7)] true)]) in
+  bs_ads (s_bgp (snd ws')) 0 = None /\ sess_of (s_bgp (snd ws')) 1 = Some [].
+Proof. vm_compute. repeat split; discriminate. Qed.
